@@ -126,3 +126,51 @@ Proof.
   - vm_compute in E. inversion E as [E']. destruct Hx as [Hx|Hx]; rewrite Hx in E'; discriminate.
   - vm_compute in Hc. discriminate.
 Qed.
+
+(* ---- the same over whole edit histories (adds and removes, failing edits included) ---- *)
+Lemma cs_remove_elsewhere S c S' x : cs_remove S c = Ok S' -> x <> fold c -> smem x S' = smem x S.
+Proof.
+  unfold cs_remove. destruct (smem (fold c) S); [|discriminate]. intros H Hx. inversion H; subst.
+  rewrite smem_sremove_iff.
+  destruct (seq_eqb (fold c) x) eqn:Q; [apply seq_eqb_eq in Q; congruence|]. cbn. apply andb_true_r.
+Qed.
+
+Lemma cs_remove_gone S c S' : cs_remove S c = Ok S' -> smem (fold c) S' = false.
+Proof.
+  unfold cs_remove. destruct (smem (fold c) S); [|discriminate]. intros H. inversion H; subst.
+  rewrite smem_sremove_iff, seq_eqb_refl. cbn. apply andb_false_r.
+Qed.
+
+Lemma user_edit_elsewhere S e x :
+  ~ touched (snd e) x -> smem x (set_edit true S e) = smem x S.
+Proof.
+  intro Hn. unfold set_edit, set_edit_res. destruct e as [[|] c]; cbn [fst snd] in *.
+  - destruct (ucs_add S c) as [S'|ex] eqn:E; [|reflexivity]. apply (ucs_add_elsewhere S c S' x E Hn).
+  - destruct (cs_remove S c) as [S'|ex] eqn:E; [|reflexivity].
+    apply (cs_remove_elsewhere S c S' x E). intro Q. apply Hn. left. exact Q.
+Qed.
+
+Lemma user_history_elsewhere es : forall S x,
+  (forall e, In e es -> ~ touched (snd e) x) -> smem x (set_history true es S) = smem x S.
+Proof.
+  unfold set_history. induction es as [|e es IH]; intros S x H; cbn [fold_left]; [reflexivity|].
+  rewrite IH by (intros e' He'; apply H; right; exact He').
+  apply user_edit_elsewhere. apply H. left. reflexivity.
+Qed.
+
+Theorem history_frame d u es c2 f :
+  d_user d = Some u ->
+  (forall e x, In e es -> queried c2 x -> ~ touched (snd e) x) ->
+  checkCapability (with_caps d (set_history true es (u_caps u))) c2 f = checkCapability d c2 f.
+Proof.
+  intros Hu Hq.
+  assert (E : forall x, queried c2 x -> smem x (u_caps u) = smem x (set_history true es (u_caps u))).
+  { intros x Hx. symmetry. apply user_history_elsewhere. intros e He. apply (Hq e x He Hx). }
+  apply check_frame with (u := u); [exact Hu| | |].
+  - apply E. left. reflexivity.
+  - split; [apply E; right; left; reflexivity|].
+    intros i Hi. apply E. right. right. left. exact Hi.
+  - intros chn cap chanop Hc Hm. split.
+    + apply E. right. right. right. exists chn, cap, chanop. auto.
+    + intros i Hi. apply E. right. right. right. exists chn, cap, chanop. auto.
+Qed.
